@@ -34,7 +34,7 @@ pub fn gen(seed: u64) -> CCase {
         native_prefix,
         mode: *rng.pick(&[0u8, 0, 1, 1, 1, 2, 3]),
         sections: rng.range(1, 31) as u8,
-        muts: (0..n).map(|_| (rng.below(17) as u8, rng.below(14) as u8, rng.below(16) as u8)).collect(),
+        muts: (0..n).map(|_| (rng.below(17) as u8, rng.below(14) as u8, rng.below(64) as u8)).collect(),
         with_oracle: rng.chance(3, 4),
         with_treasury: rng.chance(1, 2),
         upper_validator: rng.chance(1, 4),
@@ -94,7 +94,7 @@ fn mutate(s: &str, kind: u8, arg: u8, other_prefix: &str) -> String {
 const BAD_CHANNELS: &[&str] = &["channel-", "channel-1x", "chan-1", "channel--1", "channel-18446744073709551616", "channel-+5", "channel-007", "Channel-1", "channel-1 ", "", "channel-1/2", "channel-١"];
 const BAD_IBC: &[&str] = &["ibc/", "ibc/ABC", "IBC/", "ibc", "", "xibc/"];
 const BAD_PREFIX: &[&str] = &["OSMO", "Osmo", "", "os mo", "osmo\u{7f}", "ośmo", "CELESTIA", "celestiA"];
-const BAD_DENOM: &[&str] = &["uti", "utia1", "u-tia", "", "milk TIA", "milkTIÄ", "abcd", "ABCD", "milkTIA ", " milkTIA", "milkTIA\n", "stTIA\t"];
+const BAD_DENOM: &[&str] = &["uti", "utia1", "u-tia", "", "milk TIA", "milkTIÄ", "abcd", "ABCD", "milkTIA ", " milkTIA", "milkTIA\n", "stTIA\t", "milk/TIA", "a/b/c", "milk.TIA", "milk_TIA", "milk:TIA", "9milk", "factory/x/milkTIA"];
 
 /// Independent well-formedness of the supplied sections of a stored configuration.
 pub fn well_formed(cfg: &Value, native: bool, protocol: bool, fee: bool, monitors: bool) -> Result<(), String> {
@@ -274,7 +274,10 @@ fn apply_muts(c: &CCase, p: &mut Parts) -> bool {
             }
             8 => {
                 let cur = p.protocol["ibc_token_denom"].as_str().unwrap_or("").to_string();
-                p.protocol["ibc_token_denom"] = json!(match kind % 6 {
+                p.protocol["ibc_token_denom"] = json!(match kind % 8 {
+                    // the right length and alphabet under another chain's or module's prefix
+                    6 => cur.replacen("ibc/", ["l2/", "move/", "IBC/", "ibc:"][arg as usize % 4], 1),
+                    7 => cur.replacen("ibc/", ["factory/", "erc20/", "cw20:", "evm/"][arg as usize % 4], 1),
                     4 => format!("ibc/{}", cur),
                     5 => cur.replacen("ibc/", "ibc//", 1),
                     0 => BAD_IBC[arg as usize % BAD_IBC.len()].to_string(),
@@ -388,8 +391,8 @@ pub fn eval(c: &CCase) -> Eval {
                     }
                     // C19: the create-denom message is for the configured sub-denom, with the contract as sender
                     let creates: Vec<(String, String)> = r.effects.iter().filter_map(|e| match e { Effect::TfCreate { sender, subdenom, .. } => Some((sender.clone(), subdenom.clone())), _ => None }).collect();
-                    if creates.len() != 1 || creates[0].0 != s_addr || creates[0].1 != sub {
-                        viol.push(Violation { stop: true, prop: "C19", clause: "create_denom_matches_config", step: 1, msg: format!("instantiate emitted create-denom {:?} but the configured LST denom is {:?}", creates, lst) });
+                    if creates.len() != 1 || creates[0].0 != s_addr || creates[0].1 != sub || creates[0].1 != p.subdenom || lst != format!("factory/{}/{}", s_addr, p.subdenom) {
+                        viol.push(Violation { stop: true, prop: "C19", clause: "create_denom_matches_config", step: 1, msg: format!("instantiate with sub-denom {:?} emitted create-denom {:?} and configured the LST denom {:?}", p.subdenom, creates, lst) });
                     }
                     if corrupted {
                         ev.stats.probe("corrupted_instantiate_accepted_but_well_formed");
